@@ -74,7 +74,7 @@ class _Return(Exception):
         self.value = value
 
 
-BIN = {ast.Add: operator.add, ast.Sub: operator.sub, ast.Mult: operator.mul, ast.FloorDiv: operator.floordiv,
+BIN = {ast.Add: operator.add, ast.Sub: operator.sub, ast.Mult: operator.mul, ast.FloorDiv: operator.floordiv, ast.Div: operator.truediv,
        ast.Mod: operator.mod, ast.Pow: operator.pow, ast.BitAnd: operator.and_, ast.BitOr: operator.or_,
        ast.BitXor: operator.xor, ast.LShift: operator.lshift, ast.RShift: operator.rshift}
 CMP = {ast.Eq: operator.eq, ast.NotEq: operator.ne, ast.Lt: operator.lt, ast.LtE: operator.le, ast.Gt: operator.gt,
@@ -950,6 +950,22 @@ def class_call_hook(cls, extra=None, model=None):
                 if r is not NotImplemented:
                     return r
             f = n.func
+            if isinstance(f, ast.Attribute) and isinstance(f.value, ast.Call) and isinstance(f.value.func, ast.Name) and f.value.func.id == 'super' \
+                    and hasattr(owner, 'mro'):
+                # super(Class, cls).method(...) / super().method(...): the next definition of the method after ``Class`` in the static MRO of
+                # the class the evaluation runs for, evaluated with the same receiver
+                after = None
+                if f.value.args and isinstance(f.value.args[0], ast.Name):
+                    after = f.value.args[0].id
+                bound_name = f.value.args[1].id if len(f.value.args) > 1 and isinstance(f.value.args[1], ast.Name) else ('cls' if 'cls' in ev.env else 'self')
+                chain = [k for k in owner.mro if hasattr(k, 'methods')]
+                names = [getattr(k, 'name', None) for k in chain]
+                start = names.index(after) + 1 if after in names else 1
+                for k in chain[start:]:
+                    m = k.methods.get(f.attr)
+                    if m is not None and not getattr(m.module, 'external', False):
+                        return call_method(owner, m, n, ev, ev.env.get(bound_name))
+                raise Unsupported('super().%s not found in the class chain' % f.attr)
             if isinstance(f, ast.Name) and f.id == 'getattr' and len(n.args) in (2, 3) and 'getattr' not in ev.env:
                 # getattr(cls, name) / getattr(TheClass, name) with a computed name: the method (as a callable that evaluates its
                 # statements) or the class level constant of that name
